@@ -3,7 +3,7 @@
    field reads and writes. *)
 From Coq Require Import ZArith List Bool Lia.
 From Apd Require Import Generated.Consts Model.Base Model.NumDigits Model.Decimal Model.Context
-  Imp.Mem Imp.Ops Imp.AliasProofs Imp.Interleave Imp.CtxOps Imp.CtxProofs.
+  Imp.Mem Imp.Ops Imp.AliasProofs Imp.Interleave Imp.CtxOps Imp.CtxProofs Imp.CtxOps2 Imp.CtxQuantReduceProofs.
 Import ListNotations.
 Open Scope Z_scope.
 
@@ -39,5 +39,39 @@ Proof.
   specialize (H Hfit). destruct (exec two_adds m0 sched) as [ts m]. intros o1 o2 H0 H1.
   destruct (H 0%nat _ _ o1 eq_refl eq_refl H0) as [E1 M1]. destruct (H 1%nat _ _ o2 eq_refl eq_refl H1) as [E2 M2].
   repeat split; try assumption; intros f; [apply M1|apply M2]; reflexivity.
+Qed.
+
+(* the same for ANY two methods whose footprints are "reads its destination and the shared operand, writes its
+   destination": e.g. OA := OC / OC and OB := Quantize(OC, e) on one Context *)
+Theorem shared_operand_any_two_methods (p1 p2 : prog outcome) m0 sched :
+  rd_within (only_objs [OA; OC; OC]) p1 -> wr_within (only_obj OA) p1 ->
+  rd_within (only_objs [OB; OC; OC]) p2 -> wr_within (only_obj OB) p2 ->
+  let '(ts, m) := exec [p1; p2] m0 sched in
+  forall o1 o2, nth_error ts 0 = Some (Ret o1) -> nth_error ts 1 = Some (Ret o2) ->
+  o1 = fst (run p1 m0) /\ o2 = fst (run p2 m0) /\
+  (forall f, m (OA, f) = snd (run p1 m0) (OA, f)) /\ (forall f, m (OB, f) = snd (run p2 m0) (OB, f)).
+Proof.
+  intros R1 W1 R2 W2.
+  pose proof (interleaving_is_solo [p1; p2] two_add_fps m0 sched eq_refl two_adds_noninterfering) as H.
+  assert (Hfit : forall i p f, nth_error [p1; p2] i = Some p -> nth_error two_add_fps i = Some f -> fits p f).
+  { intros i p f Hp Hf. unfold two_add_fps in Hf. destruct i as [|[|i]]; cbn [nth_error] in Hp, Hf; try (destruct i; discriminate);
+      injection Hp as <-; injection Hf as <-; split; cbn [fp_R fp_W]; assumption. }
+  specialize (H Hfit). destruct (exec [p1; p2] m0 sched) as [ts m]. intros o1 o2 H0 H1.
+  destruct (H 0%nat _ _ o1 eq_refl eq_refl H0) as [E1 M1]. destruct (H 1%nat _ _ o2 eq_refl eq_refl H1) as [E2 M2].
+  repeat split; try assumption; intros f; [apply M1|apply M2]; reflexivity.
+Qed.
+
+Theorem shared_context_quo_and_quantize e m0 sched :
+  let p1 := quo_imp est c OA OC OC in
+  let p2 := quantize_imp est c e OB OC in
+  let '(ts, m) := exec [p1; p2] m0 sched in
+  forall o1 o2, nth_error ts 0 = Some (Ret o1) -> nth_error ts 1 = Some (Ret o2) ->
+  o1 = fst (run p1 m0) /\ o2 = fst (run p2 m0) /\
+  (forall f, m (OA, f) = snd (run p1 m0) (OA, f)) /\ (forall f, m (OB, f) = snd (run p2 m0) (OB, f)).
+Proof.
+  intros p1 p2. apply shared_operand_any_two_methods.
+  - apply quo_imp_reads. - apply quo_imp_ww.
+  - apply (rd_within_weaken (only_objs [OB; OC])); [|apply quantize_imp_reads]. intros a Ha. unfold only_objs in *. cbn in *. tauto.
+  - apply quantize_imp_ww.
 Qed.
 End WithCtx.
